@@ -987,7 +987,18 @@ func c12Bind(rc *RC) {
 		case 2:
 			fmt.Fprintf(sc, `<iq type='error' id='%s'><error type='cancel'><conflict xmlns='urn:ietf:params:xml:ns:xmpp-stanzas'/></error></iq>`, esc(id))
 		case 3:
-			fmt.Fprintf(sc, `<iq type='result' id='other-%s'><bind xmlns='urn:ietf:params:xml:ns:xmpp-bind'><jid>%s</jid></bind></iq>`, esc(id), esc(assigned.String()))
+			// another id - in a third of the cases with the request's id in an attribute that is only named like the
+			// stanza's own (another namespace), in front of or behind the real one
+			switch ch.Int("script", 3) {
+			case 0:
+				fmt.Fprintf(sc, `<iq type='result' id='other-%s'><bind xmlns='urn:ietf:params:xml:ns:xmpp-bind'><jid>%s</jid></bind></iq>`, esc(id), esc(assigned.String()))
+			case 1:
+				rc.Fire("bind-reply-id-decoy")
+				fmt.Fprintf(sc, `<iq xmlns:x='urn:x' type='result' id='other-%s' x:id='%s'><bind xmlns='urn:ietf:params:xml:ns:xmpp-bind'><jid>%s</jid></bind></iq>`, esc(id), esc(id), esc(assigned.String()))
+			default:
+				rc.Fire("bind-reply-id-decoy")
+				fmt.Fprintf(sc, `<iq xmlns:x='urn:x' x:id='%s' type='result' id='other-%s'><bind xmlns='urn:ietf:params:xml:ns:xmpp-bind'><jid>%s</jid></bind></iq>`, esc(id), esc(id), esc(assigned.String()))
+			}
 		case 4:
 			fmt.Fprintf(sc, `<iq type='result' id='%s'><bind xmlns='urn:ietf:params:xml:ns:xmpp-bind'><jid>not a@valid@jid/</jid></bind></iq>`, esc(id))
 		case 5:
